@@ -302,6 +302,12 @@ def renderSrc : Src → List Char
   | .invalid => invalidSource
   | .path s => s
 
+/-- `[INVALID_SOURCE if s == NotImplemented else s for s in sources] or [INVALID_SOURCE]` -/
+def finalSources (keys : List Src) : List (List Char) :=
+  match keys.map renderSrc with
+  | [] => [invalidSource]
+  | l => l
+
 structure WriteResult where
   mappings : Mappings
   sources : List (List Char)
@@ -314,10 +320,7 @@ def write (cc : CharClasses) (normalize : Bool) (frags : List Frag) : Option Wri
   let st := writeLoop cc WState.init frags
   let raw := st.done ++ [st.cur]
   let ms : Option Mappings := if normalize then normalizeMappings raw 0 else some raw
-  let listSources := match st.sources.keys.map renderSrc with
-    | [] => [invalidSource]
-    | l => l
-  ms.map fun m => { mappings := m, sources := listSources, names := st.names.keys }
+  ms.map fun m => { mappings := m, sources := finalSources st.sources.keys, names := st.names.keys }
 
 /-- the text written to the stream -/
 def output (frags : List Frag) : List Char := (frags.map (·.text)).flatten
@@ -337,5 +340,22 @@ def bothOrNone (f : Frag) : Bool := f.lineno.isSome == f.colno.isSome
 
 def wfStream (frags : List Frag) : Bool :=
   frags.all bothOrNone && noSplitCRLF false (frags.map (·.text))
+
+/-! ### vocabulary of the property statements -/
+
+/-- explicitly positioned: `lineno` and `colno` both present and non-zero -/
+def explicit (f : Frag) : Bool :=
+  match f.lineno, f.colno with
+  | some (_ + 1), some (_ + 1) => true
+  | _, _ => false
+
+/-- a fragment whose `source` element is looked at by `write`: it writes something and is
+not an unmapped (`None` position) fragment -/
+def registers (f : Frag) : Bool := !f.text.isEmpty && f.lineno.isSome && f.colno.isSome
+
+/-- the source in force after a prefix of the stream: the `source` element of the most recent
+registering fragment that has one (`None` = implicit = unchanged) -/
+def effSource (fs : List Frag) : Option Src :=
+  fs.foldl (fun acc f => if registers f then (match f.source with | some s => some s | none => acc) else acc) none
 
 end CalmVerif.Model.SourceMap
